@@ -82,6 +82,7 @@ type FuncSpec struct {
 	Opaque   bool // do not verify the body (contract only used by callers); listed as assumption
 	CSEnsures []Clause // critical-section postconditions: checked when a lock is released; old() = state at its acquisition
 	Rely      []Clause // assumed after every cond.Wait re-acquisition (interference assumption, listed in evidence)
+	NoGo      string              // nogo[label]: the function (incl. inlined callees) starts no goroutine
 	Covers    []Clause            // cover[label] expr: must be satisfiable at some return of the function
 	Before    map[string][]Clause // callee short name -> assertions that must hold (in this function's scope) whenever it calls that callee
 }
@@ -852,6 +853,15 @@ func (ss *SpecSet) ParseSpecFile(file, pkgPath string) (err error) {
 			}
 			lab, body := splitLabel(rest)
 			curF.CSEnsures = append(curF.CSEnsures, Clause{lab, mustExpr(file, lno, body), body})
+		case "nogo":
+			if curF == nil {
+				panic(fmt.Errorf("%s:%d: nogo outside func", file, lno))
+			}
+			lab, _ := splitLabel(rest)
+			if lab == "" {
+				lab = "no_goroutine"
+			}
+			curF.NoGo = lab
 		case "cover":
 			if curF == nil {
 				panic(fmt.Errorf("%s:%d: cover outside func", file, lno))
